@@ -201,6 +201,8 @@ func runC01(c *Ctx, r *Report) {
 	c03r4(c, r) // case folding tables are only filled for a scheme name Init knows
 	c01r5(c, r)
 	c01r4(c, r)
+	c02r8(c, r) // case and accent folding are the same in every matcher
+	oneSlabPerWorkerShared(c, r)
 	c08r8(c, r) // interactive list: no matching line dropped after going back to an earlier query
 }
 
